@@ -82,7 +82,7 @@ func applyMutation(mt *MsgType, live any, model *dynamicpb.Message, src *dynamic
 		if src.Get(fd).Message().Has(sfd) {
 			tmp := dynamicpb.NewMessage(fd.Message())
 			tmp.Set(sfd, model.Get(fd).Message().Get(sfd))
-			copyFromDyn(tmp, child, child.Interface())
+			copyFromDyn(tmp, child, concreteOf(child))
 		}
 	} else {
 		copyFieldDyn(model, src, fd)
